@@ -270,6 +270,47 @@ var callerProg *Prog
 
 func callerArgsOf(pa *ssa.Parameter) ([]ssa.Value, bool) {
 	fn := pa.Parent()
+	if fn != nil && fn.Parent() != nil && fn.Object() == nil {
+		// a function literal: its parameters are what the calls of that literal in the enclosing
+		// function pass (only when the literal is used nowhere but as the callee of those calls)
+		idx := paramIndex(fn, pa)
+		var out []ssa.Value
+		okAll := idx >= 0
+		eachInstr(fn.Parent(), func(b *ssa.BasicBlock, i int, in ssa.Instruction) {
+			if c, isC := in.(ssa.CallInstruction); isC {
+				cc := c.Common()
+				callee := cc.Value
+				if mc, isMC := callee.(*ssa.MakeClosure); isMC {
+					callee = mc.Fn
+				}
+				if callee == ssa.Value(fn) && idx < len(cc.Args) {
+					out = append(out, cc.Args[idx])
+				}
+			}
+		})
+		// any other use of the literal (stored, passed on) makes its arguments unknown
+		check := func(v ssa.Value) {
+			if refs := v.Referrers(); refs != nil {
+				for _, u := range *refs {
+					switch y := u.(type) {
+					case ssa.CallInstruction:
+						if y.Common().Value != v {
+							okAll = false
+						}
+					case *ssa.DebugRef:
+					default:
+						okAll = false
+					}
+				}
+			}
+		}
+		eachInstr(fn.Parent(), func(b *ssa.BasicBlock, i int, in ssa.Instruction) {
+			if mc, isMC := in.(*ssa.MakeClosure); isMC && mc.Fn == ssa.Value(fn) {
+				check(mc)
+			}
+		})
+		return out, okAll && len(out) > 0
+	}
 	if fn == nil || callerProg == nil || fn.Object() == nil || fn.Object().Exported() {
 		return nil, false
 	}
